@@ -45,6 +45,7 @@ def check(ctx):
     rows_iter = None
     row = key_t = None
     violated = None
+    dedup_rows = False
     core = ret
     while core is not None and core.op == "assume":
         core = core.args[1]
@@ -57,6 +58,7 @@ def check(ctx):
             key_arr is fc or (key_arr.op == "call" and key_arr.args[0].op == "attr" and key_arr.args[0].args[1] == "astype" and key_arr.args[0].args[0] is fc))
         if by_rows:
             core = core.args[0]
+            dedup_rows = True
         else:
             violated = ("rows are de-duplicated with np.unique over " + (show(key_arr, maxdepth=3)[:60] if key_arr is not None else "?") +
                         ", which does not identify the value tuple (e.g. a plain concatenation of the columns): different tuples with "
@@ -154,7 +156,7 @@ def check(ctx):
                "value tuples merge into the same key", construct="merge code uniquely decodable")
     # R13.2
     want = mk("call", mk("attr", fc, "astype"), (glob("builtins.str"),), ())
-    ok = rows_iter is want
+    ok = rows_iter is want or (dedup_rows and rows_iter is not None and rows_iter.op == "sub" and rows_iter.args[0] is want)
     if rows_iter is not None:
         ctx.ob("R13.2", fq, None, ok, "rows are stringified with astype(str) before merging" if ok else
                f"rows iterate over {show(rows_iter, maxdepth=3)[:80]}, not the stringified block", construct="astype(str)")
